@@ -5,6 +5,21 @@ HERE = os.path.dirname(os.path.dirname(os.path.abspath(__file__)))
 
 # id -> (engine, category, technique, level text, level note, design ref)
 CHECKS = {
+ "C02": ("ceremony", "exploration",
+   "proptest-generated registration histories through the real Client, judged by an independent relying-party verifier and a store-delta model (model-based oracle)",
+   "Generated histories of registrations (all client-data modes, algorithm lists, challenge/user shapes, id lengths, counter settings, three store kinds, nine accepted origin/RP-ID sites) are executed on the real client+authenticator; each success is verified the way a relying party would (client data, attestation object, authenticator data layout decoded independently, COSE/DER key agreement, P-256 point validity) and against the store delta (exactly one new record whose private scalar matches the returned public key, effective RP ID, fresh id of the configured length); unsupported-only algorithm lists must fail and leave the store unchanged.",
+   "trusts p256, ciborium::Value and serde_json::Value as generic parsers inside the oracle; user validation always consents (C04 covers consent)",
+   "DESIGN.md §4 C02"),
+ "C03": ("ceremony", "exploration",
+   "proptest-generated interleaved register/authenticate histories with a model of registered credentials; signatures verified with p256 under the model's key (model-based oracle)",
+   "Interleaved histories over several RP IDs, users, allow-list shapes and client-data modes run on the real client; every assertion must verify under the public key the model recorded at registration for the returned id over authData || clientDataHash (or the caller's hash), carry the right client data, rpIdHash, no AT, id/rawId agreement, eligibility (RP and allow list) and the stored user handle; with no eligible credential the result must be CredentialNotFound and the store unchanged.",
+   "multi-RP histories run on the reference store (contract semantics) because MemoryStore's id lookup ignores the RP (known finding D5 under C05); single-RP histories also run on the shipped stores",
+   "DESIGN.md §4 C03"),
+ "C08": ("ceremony", "exploration",
+   "proptest-generated assertion histories against a per-credential counter model (invariant over the history)",
+   "Histories of up to 40 assertions interleaved over up to 4 credentials with boundary start counters (0, 2^31, 2^32-1, ...) check after every step that the reported counter is previous+1, equals the stored value, that nothing else in the record changed, that counter-less credentials report 0 and are never rewritten, and that at u32::MAX nothing wraps or panics (overflow checks are on in the harness build).",
+   "the harness builds the library with overflow-checks and debug-assertions on, so wrap-around shows as a panic as well as a model mismatch",
+   "DESIGN.md §4 C08"),
  "C01": ("rpid", "exploration",
    "proptest-constructed (origin, RP ID) pairs + complete sweep of all list rules against a reference predicate written from the statement (implication oracle), plus spy-instrumented end-to-end ceremonies",
    "Every (origin, RP ID, configuration) pair is decided by the real RpIdVerifier and by a reference predicate (label-aligned suffix, https, registrable under the harness's own PSL implementation or the plugged provider, localhost exception); acceptance must imply the predicate and yield exactly the effective RP ID. All ~9.8k list rules are swept as RP IDs (A-label and Unicode/Android forms), every character cut of a set of hosts is enumerated, and generated pairs are also pushed through Client::register/authenticate with spy store and spy user validation (rejected => authenticator untouched, accepted => store and rpIdHash see the effective RP ID).",
